@@ -384,7 +384,11 @@ package rules
 // The content validator installed by the array-begin functions: one of ValidateContentsString/RID/
 // CustomText/Comment/ValidateNothing. Assumed: it only inspects the bytes it is given and rejects by
 // panicking.
+// validatedBytes (ghost) counts the bytes shown to it.
+//@ ghost validatedBytes uint64
 //@ iface rules.Context.ValidateArrayDataFunc
+//@   modifies validatedBytes
+//@   ensures validatedBytes == old(validatedBytes) + uint64(len(arg0))
 //@   may_panic
 
 //@ func (*Context).AddBuiltArrayBytes
@@ -417,13 +421,17 @@ package rules
 //@ func (*StringChunkRule).OnArrayData
 //@   requires ctx != nil && RemOK(ctx) && data.arr != uint64(ctx.utf8RemainderBacking) && data.arr != uint64(ctx.utf8FirstRuneBacking) && len(ctx.builtArrayBuffer) + len(data) <= 0x1000000000
 //@   requires ctx.builtArrayBuffer.arr != uint64(ctx.utf8RemainderBacking) && ctx.builtArrayBuffer.arr != uint64(ctx.utf8FirstRuneBacking) && ctx.builtArrayBuffer.arr != data.arr && allocated(ctx.builtArrayBuffer) && allocated(ctx.utf8RemainderBacking) && allocated(ctx.utf8FirstRuneBacking)
-//@   modifies obj(ctx), memall(contextStackEntry), memall(byte), maps, alloc
+//@   modifies obj(ctx), memall(contextStackEntry), memall(byte), maps, alloc, validatedBytes
 //@   runtime_panics
 //@   xensures true
 //@   ensures old(ctx.chunkActualByteCount) + uint64(len(data)) <= old(ctx.chunkExpectedByteCount)
 //@   ensures old(ctx.chunkActualByteCount) + uint64(len(data)) < old(ctx.chunkExpectedByteCount) ==> ctx.chunkActualByteCount == old(ctx.chunkActualByteCount) + uint64(len(data))
 //@   ensures old(ctx.chunkActualByteCount) + uint64(len(data)) < old(ctx.chunkExpectedByteCount) ==> RemOK(ctx)
 //@   ensures old(ctx.chunkActualByteCount) + uint64(len(data)) < old(ctx.chunkExpectedByteCount) ==> len(ctx.builtArrayBuffer) + len(ctx.utf8RemainderBuffer) == old(len(ctx.builtArrayBuffer)) + old(len(ctx.utf8RemainderBuffer)) + len(data)
+// every byte that joins the built string has been shown to the content validator - also the character
+// reassembled from bytes held back by earlier data events (whatever the split, the verdict is the same)
+//@   ensures old(ctx.chunkActualByteCount) + uint64(len(data)) < old(ctx.chunkExpectedByteCount) ==> validatedBytes - old(validatedBytes) == uint64(len(ctx.builtArrayBuffer) - old(len(ctx.builtArrayBuffer)))
+//@   ensures old(ctx.chunkActualByteCount) + uint64(len(data)) == old(ctx.chunkExpectedByteCount) ==> validatedBytes - old(validatedBytes) == uint64(old(len(ctx.utf8RemainderBuffer)) + len(data))
 
 // One data event of a chunk of a non-string array: only counted against the chunk.
 //@ func (*ArrayChunkRule).OnArrayData
@@ -443,12 +451,21 @@ package rules
 // times and wider big integers take the array/string paths of NotifyKey, which are not stated here).
 //@ spec KeyCovered(key any) bool = typeIs(key, "int64") || typeIs(key, "int") || typeIs(key, "int32") || typeIs(key, "int16") || typeIs(key, "int8") || typeIs(key, "uint64") || typeIs(key, "uint") || typeIs(key, "uint32") || typeIs(key, "uint16") || typeIs(key, "uint8") || typeIs(key, "bool") || typeIs(key, "string") || typeIs(key, "rid") || (typeIs(key, "negint") && payload(key, "negint") <= 0x8000000000000000) || (typeIs(key, "*big.Int") && payload(key, "*big.Int") != nil && big.WF(payload(key, "*big.Int")) && bigIs64[uint64(payload(key, "*big.Int"))] && (!bigNeg[uint64(payload(key, "*big.Int"))] || bigLo[uint64(payload(key, "*big.Int"))] <= 0x8000000000000000))
 
+// lastKey (ghost): the key value most recently handed to NotifyKey, exactly as handed (dynamic type
+// included: string and resource-id keys are different keys even when their text is the same).
+// For the key kinds whose equality the model decides (KeyCovered: integers, booleans, ...) the
+// verdict is two-sided: a normal return means the normal form was not in the set and now is, a
+// panic means it was. For the other kinds (text, byte arrays: Go compares their content, the model
+// does not) only "may reject" is claimed.
+//@ ghost lastKey any
 //@ func (*Context).NotifyKey
-//@   requires _this.CurrentEntry.Keys != nil && KeyCovered(key)
+//@   requires _this.CurrentEntry.Keys != nil && (KeyCovered(key) || typeIs(key, "string") || typeIs(key, "rid"))
+//@   ghost_set lastKey = key
 //@   modifies mapof(_this.CurrentEntry.Keys), alloc
-//@   panics has(_this.CurrentEntry.Keys, NormKey(key))
-//@   ensures has(_this.CurrentEntry.Keys, NormKey(key))
-//@   ensures forall k any :: k != NormKey(key) ==> has(_this.CurrentEntry.Keys, k) == old(has(_this.CurrentEntry.Keys, k))
+//@   may_panic
+//@   xensures KeyCovered(key) ==> old(has(_this.CurrentEntry.Keys, NormKey(key)))
+//@   ensures KeyCovered(key) ==> !old(has(_this.CurrentEntry.Keys, NormKey(key))) && has(_this.CurrentEntry.Keys, NormKey(key))
+//@   ensures KeyCovered(key) ==> forall k any :: k != NormKey(key) ==> has(_this.CurrentEntry.Keys, k) == old(has(_this.CurrentEntry.Keys, k))
 
 // The same integer, however the event carries it, is the same key; different integers are
 // different keys (box is injective per type and the types uint64 / int64 split the values by sign).
@@ -464,13 +481,32 @@ package rules
 //@   inline
 //@ func (*MapKeyRule).OnKeyableObject
 //@   requires ctx != nil && ctx.CurrentEntry.Keys != nil && KeyCovered(key)
-//@   modifies mapof(ctx.CurrentEntry.Keys), ctx.CurrentEntry.Rule, alloc
+//@   modifies mapof(ctx.CurrentEntry.Keys), ctx.CurrentEntry.Rule, alloc, lastKey
 //@   panics has(ctx.CurrentEntry.Keys, NormKey(key))
 //@   ensures has(ctx.CurrentEntry.Keys, NormKey(key))
 //@   ensures forall k any :: k != NormKey(key) ==> has(ctx.CurrentEntry.Keys, k) == old(has(ctx.CurrentEntry.Keys, k))
 //@ func (*RecordTypeRule).OnKeyableObject
 //@   requires ctx != nil && ctx.CurrentEntry.Keys != nil && KeyCovered(key)
-//@   modifies mapof(ctx.CurrentEntry.Keys), alloc
+//@   modifies mapof(ctx.CurrentEntry.Keys), alloc, lastKey
 //@   panics has(ctx.CurrentEntry.Keys, NormKey(key))
 //@   ensures has(ctx.CurrentEntry.Keys, NormKey(key))
 //@   ensures forall k any :: k != NormKey(key) ==> has(ctx.CurrentEntry.Keys, k) == old(has(ctx.CurrentEntry.Keys, k))
+
+// Text keys (C12): a string key is registered as a Go string, a resource-id key as a rid - whether it
+// arrived as one array event or in chunks - so that the same text as a string and as a resource id
+// are two keys, and the same resource id is one key however it was delivered.
+//@ func (*Context).GetBuiltArrayAsString
+//@   modifies alloc
+//@   ensures len(result) == len(_this.builtArrayBuffer)
+//@ func (*MapKeyRule).OnChildContainerEnded
+//@   requires ctx != nil && ctx.CurrentEntry.Keys != nil && (dataType == DataTypeString || dataType == DataTypeResourceID)
+//@   modifies mapof(ctx.CurrentEntry.Keys), ctx.CurrentEntry.Rule, alloc, lastKey
+//@   may_panic
+//@   ensures dataType == DataTypeString ==> typeIs(lastKey, "string") && len(payload(lastKey, "string")) == len(ctx.builtArrayBuffer)
+//@   ensures dataType == DataTypeResourceID ==> typeIs(lastKey, "rid") && len(payload(lastKey, "rid")) == len(ctx.builtArrayBuffer)
+//@ func (*RecordTypeRule).OnChildContainerEnded
+//@   requires ctx != nil && ctx.CurrentEntry.Keys != nil && (dataType == DataTypeString || dataType == DataTypeResourceID)
+//@   modifies mapof(ctx.CurrentEntry.Keys), alloc, lastKey
+//@   may_panic
+//@   ensures dataType == DataTypeString ==> typeIs(lastKey, "string") && len(payload(lastKey, "string")) == len(ctx.builtArrayBuffer)
+//@   ensures dataType == DataTypeResourceID ==> typeIs(lastKey, "rid") && len(payload(lastKey, "rid")) == len(ctx.builtArrayBuffer)
